@@ -270,6 +270,22 @@ def run(ctx, name, kind, **kw):
                                               {"string": "from_string", "der": "from_der", "pem": "from_pem"}[how], data, ", ecdsa.curves.%s" % c.name if how == "string" else ""))
         else:
             ctx.count("no_point_with_x_0_on_" + c.name)
+        # the OID table is a public list: a curve appended to it (after other keys were already parsed) must be found by the loaders
+        if c.name in ("NIST192p", "SECP160r1", "BRAINPOOLP160r1", "NIST256p"):
+            from ecdsa import curves as _c
+            dm = rng.randrange(2, n)
+            G2 = dom.curve.mul(dm, dom.G)
+            from vf.ref.ecdsa_ref import Domain
+            dom2 = Domain(dom.p, dom.curve.a, dom.curve.b, G2[0], G2[1], n, dom.h, c.name + "_registered")
+            new_oid = (1, 3, 132, 0, 200 + len(c.name))
+            custom = _c.Curve(dom2.name, c.curve, lib.PointJacobi(c.curve, G2[0], G2[1], 1, n, generator=True), new_oid)
+            _c.curves.append(custom)
+            try:
+                for d in (1, 2, n - 1, rng.randrange(1, n)):
+                    check_key(ctx, custom, dom2, d, True)
+                ctx.count("keys_on_curve_registered_after_first_parse", 4)
+            finally:
+                _c.curves.remove(custom)
     elif kind == "toy":
         ts = sigs.toy_prime_curves(7, 61)
         for t in ts[:: max(1, len(ts) // kw["ncurves"])][: kw["ncurves"]]:
